@@ -265,6 +265,9 @@ func (inv *Invoice) Calculate() error {
 	// Try to set Regime if not already prepared from the supplier's tax ID
 	if inv.Regime.IsEmpty() {
 		inv.SetRegime(partyTaxCountry(inv.Supplier))
+	} else if rd := inv.RegimeDef(); rd != nil {
+		// an alternative country code is replaced by the regime's own
+		inv.SetRegime(rd.Country)
 	}
 
 	inv.Normalize(tax.ExtractNormalizers(inv))
